@@ -269,7 +269,11 @@ func (b *Box) CloneTo(base string) (*Box, error) {
 	return nb, nil
 }
 
+// CopyTree copies a directory tree. Hard links between files INSIDE the tree are preserved (two names of one
+// inode stay two names of one inode in the copy): an aliasing between a workspace file and a cache blob must
+// survive the cloning of a state, otherwise the history engines could not observe its consequences.
 func CopyTree(src, dst string) error {
+	linked := map[[2]uint64]string{}
 	return filepath.WalkDir(src, func(p string, d fs.DirEntry, err error) error {
 		if err != nil {
 			return err
@@ -290,6 +294,13 @@ func CopyTree(src, dst string) error {
 		case d.IsDir():
 			return os.MkdirAll(target, 0o755)
 		default:
+			if st, ok := info.Sys().(*syscall.Stat_t); ok && st.Nlink > 1 {
+				key := [2]uint64{uint64(st.Dev), uint64(st.Ino)}
+				if first, seen := linked[key]; seen {
+					return os.Link(first, target)
+				}
+				linked[key] = target
+			}
 			b, err := os.ReadFile(p)
 			if err != nil {
 				return err
